@@ -9,7 +9,7 @@ import vlib
 
 # set to True once the tree.node hook (docs/reports/C14-hook.diff) is committed in /repo: a run without
 # hook events is then a tool error (the fit.reach clause would silently be skipped otherwise)
-HOOK_REQUIRED = False
+HOOK_REQUIRED = True
 
 MODEL = {"quick": [dict(MaxN=3, MaxV=2, MaxK=2, MaxD=1, Mws="{8}", Mwl="{4, 8}", Mid="{10, 300000}")],
          "thorough": [dict(MaxN=4, MaxV=2, MaxK=2, MaxD=1, Mws="{8, 12}", Mwl="{2, 4, 8}", Mid="{10, 300000}"),
